@@ -1,7 +1,9 @@
 (* C18 — standby status updates keep flowing.
    "While running, the client sends a standby status update whenever the progress ticker has
-   fired at the loop head, after every receive timeout, and in reply to every keepalive that
-   requests one — before it reads the next message; an iteration never spins silently: it either
+   fired at the loop head, after every receive timeout, in reply to every keepalive that
+   requests one — before it reads the next message —, and at every tick of the progress ticker
+   that fires while the downstream channel is full and the client cannot hand over the message
+   it holds; an iteration never spins silently: it either
    performs exactly one receive (bounded by the 5 s receive timeout) or the client stops, and
    stopping is always announced (Close, Stop)."
    Quantifier: every state / every first message and every list of loop iterations (see C03.v).
@@ -11,16 +13,23 @@
    of the four statements below (a tick that fired is polled at the next loop head, a loop head
    is reached after at most one receive, a receive lasts at most R and a timeout sends) PLUS timer
    delivery and scheduler latency, which are outside model/Client.v (the model has no clock: the
-   ticker is the oracle bit [i_tick], the receive timeout the event [ETimeout]).  The
-   blocked-output loop of handleXLogData (select on the output channel and the ticker) is not
-   modelled either: model/Client.v has no output-full event; C18_blocked_output is therefore not
-   stated.
+   ticker is the oracle bit [i_tick], the receive timeout the event [ETimeout], the ticks that
+   fire while the output channel is full the list [i_blocked]).  The blocked-output loop of
+   handleXLogData (select on the output channel and the ticker) IS modelled: C18_blocked_tick_sends
+   and C18_blocked_channel_closed_stops below; that the ticker keeps firing while the client is
+   blocked is, again, timer delivery.
 
    This file holds only statements closed by [exact], their assumptions, and non-vacuity examples.
    Vocabulary (proofs/ClientProofs2.v): [head_pre s it] = the observations of an iteration before
    its receive (connection requests and, if the ticker fired or the channel delivered a newer
    value, one CSend); [rapid s slow] = the rapid-heartbeat rule fires (more than 5 reply requests
-   with less than 100 ms accumulated). *)
+   with less than 100 ms accumulated); [reaches_write_loop s e] = [e] is an XLogData message that
+   handleXLogData forwards (BEGIN that is not dropped, change, COMMIT), i.e. its WriteLoop is
+   reached; [i_blocked it] = one element per tick served in that WriteLoop while the output channel
+   is full (values waiting on the progress channel at that tick, channel closed after them);
+   [blocked_closed bl] = some tick finds the channel closed; [blocked_obs h true cur bl] = the
+   observations of those ticks: per tick CGetStart h false, CSend (position after absorbing the
+   tick's values), up to the first tick that finds the channel closed. *)
 From Bifrost.model Require Import Base Client.
 From Bifrost.proofs Require Import ClientProofs ClientProofs2.
 
@@ -76,6 +85,42 @@ Theorem C18_tick_sends : forall s it s' o,
 Proof. exact cstep_tick. Qed.
 Print Assumptions C18_tick_sends.
 
+(* the blocked-output loop.  A running client receives an XLogData message that is to be
+   forwarded, the output channel is full for [length (i_blocked it)] ticks of the progress ticker
+   and none of them finds the progress channel closed: the observations of the iteration are
+   exactly  head ++ CRecv :: sends ++ [m]  where [sends] consists of one connection request
+   (never a fresh one; it carries highestWalStart including a held COMMIT) and ONE status update
+   per tick - so the iteration's status updates number (1 if the loop head sent one) + (number of
+   blocked ticks) -, and the message [m] is still forwarded afterwards; the client keeps running
+   and holds the position after absorbing all the ticks' values. *)
+Theorem C18_blocked_tick_sends : forall s it s' o,
+  stopped s = false -> i_pclosed it = false ->
+  reaches_write_loop s (i_ev it) = true -> blocked_closed (i_blocked it) = false ->
+  cstep s it = (s', o) ->
+  exists m sends,
+    ev_couts (head_state s it) (i_ev it) = [m] /\
+    o = head_pre s it ++ CRecv :: sends ++ [m] /\
+    sends = blocked_obs (highest s') true (hp_val s (i_prog it)) (i_blocked it) /\
+    (forall x, In x sends -> x = CGetStart (highest s') false \/ exists v, x = CSend v) /\
+    List.length (acks sends) = List.length (i_blocked it) /\
+    List.length (acks o) = ((if head_sends s it then 1 else 0) + List.length (i_blocked it))%nat /\
+    stopped s' = false /\
+    overall s' = blocked_val (hp_val s (i_prog it)) (i_blocked it).
+Proof. exact cstep_blocked_tick_sends. Qed.
+Print Assumptions C18_blocked_tick_sends.
+
+(* ... and when one of those ticks finds the progress channel closed: handleProgress returns the
+   error to handleXLogData, which returns it to Start, which shuts down: the status updates of
+   the ticks before it, then Close, Stop; the message held is never forwarded *)
+Theorem C18_blocked_channel_closed_stops : forall s it s' o,
+  stopped s = false -> i_pclosed it = false ->
+  reaches_write_loop s (i_ev it) = true -> blocked_closed (i_blocked it) = true ->
+  cstep s it = (s', o) ->
+  o = head_pre s it ++ CRecv :: blocked_obs (highest s') true (hp_val s (i_prog it)) (i_blocked it) ++ [CClose; CStop] /\
+  couts o = [] /\ stopped s' = true.
+Proof. exact cstep_blocked_channel_closed. Qed.
+Print Assumptions C18_blocked_channel_closed_stops.
+
 (* no silent spinning: an iteration of a running client is (Close, Stop) or contains exactly
    one receive *)
 Theorem C18_every_iteration_reads_or_stops : forall s it s' o,
@@ -95,7 +140,7 @@ Print Assumptions C18_stop_is_announced.
 
 (* ---------------- non-vacuity ---------------- *)
 Definition c18_first : cev := EKeepalive 100 false false.
-Definition c18_ka (slow : bool) : citer := mkIter false [] false (EKeepalive 100 true slow) [] false.
+Definition c18_ka (slow : bool) : citer := mkIter false [] false (EKeepalive 100 true slow) [] false [].
 
 (* one reply request: answered before the next receive, the client keeps running *)
 Example C18_reply_nonvacuous :
@@ -117,12 +162,48 @@ Proof. vm_compute. repeat split. Qed.
 
 (* ticker and timeout *)
 Example C18_tick_timeout_nonvacuous :
-  snd (cstep (fst (crun c18_first [])) (mkIter true [150]%N false ETimeout [170]%N false)) =
+  snd (cstep (fst (crun c18_first [])) (mkIter true [150]%N false ETimeout [170]%N false [])) =
     [CGetStart 0 false; CSend 150; CGetStart 0 false; CRecv; CGetStart 0 false; CSend 170].
 Proof. vm_compute. reflexivity. Qed.
 
 (* progress channel closed at the loop head: the pending keepalive is never read *)
 Example C18_closed_channel_stops :
-  cstep (fst (crun c18_first [])) (mkIter false [] true (EKeepalive 100 true true) [] false) =
+  cstep (fst (crun c18_first [])) (mkIter false [] true (EKeepalive 100 true true) [] false []) =
     (stop (fst (crun c18_first [])), [CClose; CStop]).
 Proof. vm_compute. reflexivity. Qed.
+
+(* the blocked-output loop: the ticker fired at the loop head (one update, of 120 just delivered),
+   then the change at 300 is held for three ticks (150 delivered at the first, nothing at the
+   second, 140 - stale - at the third): three more updates, then the message is forwarded.  The
+   hypotheses of C18_blocked_tick_sends hold. *)
+Definition c18_blocked : citer :=
+  mkIter true [120]%N false (EXLog 300 (XChange "INSERT")) [] false [([150], false); ([], false); ([140], false)]%N.
+
+Example C18_blocked_tick_sends_nonvacuous :
+  let s := fst (crun c18_first [mkIter false [] false (EXLog 200 (XBegin "7")) [] false []]) in
+  stopped s = false /\ i_pclosed c18_blocked = false /\
+  reaches_write_loop s (i_ev c18_blocked) = true /\ blocked_closed (i_blocked c18_blocked) = false /\
+  snd (cstep s c18_blocked) =
+    [CGetStart 0 false; CSend 120; CGetStart 0 false; CRecv;
+     CGetStart 0 false; CSend 150; CGetStart 0 false; CSend 150; CGetStart 0 false; CSend 150;
+     COut "INSERT" "7" "7-0" 300] /\
+  List.length (acks (snd (cstep s c18_blocked))) = 4%nat /\
+  stopped (fst (cstep s c18_blocked)) = false.
+Proof. vm_compute. repeat split. Qed.
+
+(* the channel is closed at the second blocked tick: one update, Close, Stop, nothing forwarded *)
+Example C18_blocked_channel_closed_nonvacuous :
+  let s := fst (crun c18_first []) in
+  let it := mkIter false [] false (EXLog 200 (XBegin "7")) [] false [([150], false); ([], true)]%N in
+  reaches_write_loop s (i_ev it) = true /\ blocked_closed (i_blocked it) = true /\
+  snd (cstep s it) = [CGetStart 0 false; CRecv; CGetStart 0 false; CSend 150; CClose; CStop] /\
+  stopped (fst (cstep s it)) = true.
+Proof. vm_compute. repeat split. Qed.
+
+(* a BEGIN that is dropped returns before the WriteLoop: blocked ticks play no role *)
+Example C18_dropped_begin_never_blocks :
+  let s := fst (crun c18_first [mkIter false [] false (EXLog 200 (XBegin "7")) [] false []]) in
+  let it := mkIter false [] false (EXLog 600 (XBegin "8")) [] false [([150], false); ([], true)]%N in
+  reaches_write_loop s (i_ev it) = false /\
+  snd (cstep s it) = [CGetStart 0 false; CRecv; CClose] /\ stopped (fst (cstep s it)) = false.
+Proof. vm_compute. repeat split. Qed.
